@@ -4,8 +4,7 @@
    reference for `SELECT .. FROM l JOIN r ON l.lk = r.rk [GROUP BY ..]` and a model of that code AS IT
    IS.  What it does:
      * the joined rows are first projected onto the select list: a plain column item takes that
-       column of the joined row, every other item (an aggregate call) is evaluated on the joined
-       row and yields NULL;
+       column of the joined row, every other item (an aggregate call) takes column 0;
      * GROUP BY columns and SUM arguments are then looked up BY THEIR INDEX IN THE JOINED ROW -- but
        in the projected row; an index beyond the projected row finds nothing;
      * groups are keyed by the Debug text of the values found (structural equality);
@@ -52,14 +51,15 @@ Definition join_impl (l r : table) (lk rk : nat) : option table :=
          | _, _ => [None]
          end) l) r).
 
-(* project_joined_row: a select item that is a plain column takes that column of the joined row; any
-   other item (an aggregate call) is EVALUATED on the joined row, where an aggregate name is unknown:
-   NULL *)
+(* output_source_indices: the column of the joined row a select item is read from; an item that is
+   not a plain column (an aggregate call) reads column 0 *)
+Definition jsrc (q : aquery) (i : nat) : nat :=
+  match nth_error (q_keys q) i with
+  | Some (ECol c) => c
+  | _ => O
+  end.
 Definition jproject (q : aquery) (j : row) : row :=
-  map (fun i => match nth_error (q_keys q) i with
-                | Some (ECol c) => match nth_error j c with Some v => v | None => VNull end
-                | _ => VNull
-                end) (q_sel q).
+  map (fun i => match nth_error j (jsrc q i) with Some v => v | None => VNull end) (q_sel q).
 
 (* group_by_indices: the plain-column keys, by their index in the joined row *)
 Definition jgroup_idx (q : aquery) : list nat :=
